@@ -143,8 +143,8 @@ func ruleAPIParametersCarryKey(c *Ctx, rule string) {
 			}
 		}
 	}
-	if n < 3 {
-		c.undecided(rule, "floor:parameters-built", token.NoPos, fmt.Sprintf("expected at least 3 command.Parameters composites under internal/api (v1, v2, bulk), found %d", n))
+	if n < 2 {
+		c.undecided(rule, "floor:parameters-built", token.NoPos, fmt.Sprintf("expected at least 2 command.Parameters composites under internal/api (the query-parameter reader(s) and the bulk processor), found %d", n))
 	}
 }
 
@@ -171,13 +171,7 @@ func ruleTXIDAdvanceGuarded(c *Ctx, rule string) {
 				if !ok {
 					continue
 				}
-				inc := false
-				for _, r := range roots(v, nil) {
-					if call, ok := r.(*ssa.Call); ok && calleeFullName(call) == "(*math/big.Int).Add" {
-						inc = true
-					}
-				}
-				if inc {
+				if derivesFromAdd(v, 0) {
 					advances = append(advances, ins.(*ssa.Store))
 				}
 			}
@@ -654,8 +648,8 @@ func ruleConflictIsAnswered(c *Ctx, rule string) {
 			}
 		})
 	}
-	if n < 3 {
-		c.undecided(rule, "floor:create-transaction-handlers", token.NoPos, fmt.Sprintf("expected at least 3 CreateTransaction calls in HTTP handlers (v1 ×2, v2), found %d", n))
+	if n < 2 {
+		c.undecided(rule, "floor:create-transaction-handlers", token.NoPos, fmt.Sprintf("expected at least 2 CreateTransaction calls in HTTP handlers (v1, v2), found %d", n))
 	}
 }
 
@@ -683,11 +677,8 @@ func ruleFoldExaminesAll(c *Ctx, rule string) {
 			folds := false
 			for _, b := range scc {
 				for _, ins := range b.Instrs {
-					if call, ok := ins.(*ssa.Call); ok {
-						switch calleeFullName(call) {
-						case "(*math/big.Int).Add", "(*math/big.Int).Sub":
-							folds = true
-						}
+					if call, ok := ins.(*ssa.Call); ok && callFolds(call, 0) {
+						folds = true
 					}
 				}
 			}
@@ -727,6 +718,25 @@ func ruleFoldExaminesAll(c *Ctx, rule string) {
 	if n == 0 {
 		c.undecided(rule, "floor:folds", token.NoPos, "no loop of internal/storage folds amounts into a balance (InMemoryStore.GetBalance confirmed by reading)")
 	}
+}
+
+// callFolds: the call adds to or subtracts from a big.Int, itself or in a helper of the repository it calls.
+func callFolds(call ssa.CallInstruction, depth int) bool {
+	switch calleeFullName(call) {
+	case "(*math/big.Int).Add", "(*math/big.Int).Sub":
+		return true
+	}
+	g := staticCallee(call)
+	if g == nil || depth >= 2 || len(g.Blocks) == 0 || !inRepo(fnPkgPath(origin(g))) {
+		return false
+	}
+	found := false
+	allCalls(g, func(ci ssa.CallInstruction) {
+		if !found && callFolds(ci, depth+1) {
+			found = true
+		}
+	})
+	return found
 }
 
 // isRangeTest: the block ends in the test of a range loop (index < length, or the ok of a map / channel / string
@@ -820,7 +830,7 @@ func ruleReverseMirrors(c *Ctx, rule string) {
 	n := 0
 	var fns []*ssa.Function
 	for _, fn := range c.FuncsIn(pkgLedger) {
-		if fn.Name() != "Reverse" || fn.Signature.Recv() == nil || len(fn.Blocks) == 0 {
+		if !strings.HasPrefix(fn.Name(), "Revers") || fn.Signature.Recv() == nil || len(fn.Blocks) == 0 {
 			continue
 		}
 		if _, ok := fn.Signature.Recv().Type().Underlying().(*types.Slice); !ok {
@@ -832,11 +842,11 @@ func ruleReverseMirrors(c *Ctx, rule string) {
 	type aff struct {
 		ok           bool
 		length, c0   int64
-		vars         map[ssa.Value]int64
+		vars         map[any]int64 // loop counters (keyed by the loop header block) and opaque phis
 	}
 	var eval func(v ssa.Value, depth int) aff
 	eval = func(v ssa.Value, depth int) aff {
-		r := aff{ok: true, vars: map[ssa.Value]int64{}}
+		r := aff{ok: true, vars: map[any]int64{}}
 		if depth > 8 {
 			r.ok = false
 			return r
@@ -852,6 +862,28 @@ func ruleReverseMirrors(c *Ctx, rule string) {
 				r.ok = false
 			}
 		case *ssa.Phi:
+			// an induction variable `v = init; v += step` is init + step·t, t the iteration count of its loop
+			if len(x.Edges) == 2 {
+				for k := 0; k < 2; k++ {
+					bo, ok := x.Edges[k].(*ssa.BinOp)
+					if !ok || (bo.Op != token.ADD && bo.Op != token.SUB) || bo.X != ssa.Value(x) {
+						continue
+					}
+					step, ok := constInt(bo.Y)
+					if !ok {
+						continue
+					}
+					if bo.Op == token.SUB {
+						step = -step
+					}
+					init := eval(x.Edges[1-k], depth+1)
+					if !init.ok {
+						break
+					}
+					init.vars[x.Block()] += step
+					return init
+				}
+			}
 			r.vars[x] = 1
 		case *ssa.BinOp:
 			a, b := eval(x.X, depth+1), eval(x.Y, depth+1)
@@ -889,7 +921,12 @@ func ruleReverseMirrors(c *Ctx, rule string) {
 				if !ok {
 					continue
 				}
-				ld, ok := st.Val.(*ssa.UnOp)
+				val := st.Val
+				// an element transformed on the way (`p[j].Reversed()`): the element the transformation is applied to
+				if call, isCall := val.(*ssa.Call); isCall && len(call.Call.Args) >= 1 && !call.Call.IsInvoke() {
+					val = call.Call.Args[0]
+				}
+				ld, ok := val.(*ssa.UnOp)
 				if !ok || ld.Op != token.MUL {
 					continue
 				}
@@ -900,13 +937,13 @@ func ruleReverseMirrors(c *Ctx, rule string) {
 				n++
 				k++
 				c.seeFn(fn)
-				key := fmt.Sprintf("%s.Reverse:element-move#%d:positions-mirror", recvTypeName(fn), k)
+				key := fmt.Sprintf("%s.%s:element-move#%d:positions-mirror", recvTypeName(fn), fn.Name(), k)
 				a, bb := eval(dst.Index, 0), eval(src.Index, 0)
 				if !a.ok || !bb.ok {
 					c.undecided(rule, key, st.Pos(), "the indices of the element move are not affine in the loop variable and the length")
 					continue
 				}
-				sumVars := map[ssa.Value]int64{}
+				sumVars := map[any]int64{}
 				for v, co := range a.vars {
 					sumVars[v] += co
 				}
@@ -934,4 +971,25 @@ func ruleReverseMirrors(c *Ctx, rule string) {
 	if n == 0 {
 		c.undecided(rule, "floor:element-moves", token.NoPos, "no Reverse method of a slice type of package ledger moves whole elements (Postings.Reverse confirmed by reading)")
 	}
+}
+
+// derivesFromAdd: v is the result of a big.Int addition, directly or as what a helper of the repository returns.
+func derivesFromAdd(v ssa.Value, depth int) bool {
+	for _, r := range roots(v, nil) {
+		call, ok := r.(*ssa.Call)
+		if !ok {
+			continue
+		}
+		if calleeFullName(call) == "(*math/big.Int).Add" {
+			return true
+		}
+		if g := staticCallee(call); g != nil && depth < 2 && len(g.Blocks) > 0 && inRepo(fnPkgPath(origin(g))) {
+			for _, b := range g.Blocks {
+				if ret, ok := b.Instrs[len(b.Instrs)-1].(*ssa.Return); ok && len(ret.Results) > 0 && derivesFromAdd(ret.Results[0], depth+1) {
+					return true
+				}
+			}
+		}
+	}
+	return false
 }
